@@ -245,9 +245,16 @@ func (g *gen) stmt(e env, budget int) []zn.Stmt {
 		}
 		body = append(body, g.block(inner, budget-1)...)
 		g.labels["while"] = true
+		obsd := g.observed(&zn.Var{Name: cnt})
+		if call, ok := obsd.(*zn.Call); ok && g.pick(2, "cond-yield") == 0 {
+			// the condition binds a name with 得到 on every test: it belongs to that pass
+			call.Yield = fmt.Sprintf("得%d", g.marker)
+			body = append([]zn.Stmt{&zn.ExprStmt{E: &zn.Call{Name: "显示", Args: []zn.Expr{&zn.Str{V: "yielded"}, &zn.Var{Name: call.Yield}}}}}, body...)
+			g.labels["condition-binds-a-name-on-every-test"] = true
+		}
 		return []zn.Stmt{
 			&zn.Let{Names: []string{cnt}, E: numE(0)},
-			&zn.While{Cond: &zn.Bin{Op: "<", L: g.observed(&zn.Var{Name: cnt}), R: numE(float64(limit))}, Body: body},
+			&zn.While{Cond: &zn.Bin{Op: "<", L: obsd, R: numE(float64(limit))}, Body: body},
 		}
 	case "each":
 		inner.loop = "each"
